@@ -34,7 +34,7 @@ Init ==
           partial == IF pf /\ fr # <<>> THEN Head(fr) ELSE <<>>
           rest == IF pf /\ fr # <<>> THEN Tail(fr) ELSE fr
           k == ReaderKind(m)
-      IN /\ msg = m /\ wire = w /\ ref = Expect(m, w)
+      IN /\ msg = m /\ wire = w /\ ref = Expect(m, Own(m, w))
          /\ frags = rest /\ rs = 0 /\ out = <<>> /\ rets = <<>> /\ ops = 0 /\ nsteps = 0 /\ bad = {}
          /\ H = [HInit EXCEPT !.oob = FALSE] @@ [stale |-> st]
          /\ IF m.kind \in HeadKinds THEN pc = "hdr" /\ R = [t |-> "none"]
@@ -52,7 +52,7 @@ RecvHdr ==
         ELSE IF r.H.rc < 0 THEN H' = r.H /\ pc' = "done" /\ UNCHANGED R
         ELSE \* prepare_body_read_stream
              LET partial == Sub0(r.H.buf, r.H.body[1], r.H.body[2]) IN
-             IF IsChunked(r.H)
+             IF UseChunkedReader(msg.kind, r.H)
              THEN IF HeadersSpaceRemain(r.H, Cap) < LineBuf THEN H' = [r.H EXCEPT !.rc = -1] /\ pc' = "done" /\ UNCHANGED R
                   ELSE H' = r.H /\ pc' = "body" /\ R' = [t |-> "chunked", st |-> ChunkInit(partial)]
              ELSE H' = r.H /\ pc' = "body" /\ R' = [t |-> "plain", st |-> BodyInit(partial, BodySize(msg.kind, r.H))]
@@ -100,7 +100,7 @@ InBounds ==
         /\ InRange(H.sl.ver, Len(H.buf)) /\ InRange(H.body, Len(H.buf))
         /\ (msg.kind = "req" => InRange(H.sl.tgt, Len(H.buf))) /\ (msg.kind # "req" => InRange(H.sl.sm, Len(H.buf)))
         /\ \A i \in 1..Len(H.idx) : InRange(<<H.idx[i][1], H.idx[i][2]>>, Len(H.buf)) /\ InRange(<<H.idx[i][3], H.idx[i][4]>>, Len(H.buf))
-  /\ IsSubsequence(out, 1, wire, 1)
+  /\ IsSubsequence(out, 1, Own(msg, wire), 1)
   /\ (R.t = "chunked" => Len(R.st.lb) <= LineBuf /\ R.st.cur <= Len(R.st.lb))
 ScopeValid == ref.valid          \* used by the configurations whose scope is meant to consist of valid messages only
 =============================================================================
